@@ -64,17 +64,45 @@ OptCallEffect(maxIter, fixFirst, np) ==
 OptCall(maxIter, fixFirst, verbose, st, np) ==                   \* `verbose` occurs in no primed expression
   OptCallEffect(maxIter, fixFirst, np) /\ obs' = [op |-> "OptCall", rep |-> Outcome(st, 0, maxIter)]
 
+\* ---------- g := Graph.from_g2o(file written by g.to_g2o(file)): the session continues on the re-imported graph ----------
+\* What the file format carries decides the effect (the meaning of the numbers is G2O's business):
+\*  - it has NO field for the `fixed` flag: every vertex of the re-imported graph is free;
+\*  - ids, kinds and the ORDER of the vertex list survive; positions of R^n vertices survive bitwise (pose token unchanged), headings may
+\*    be re-wrapped and quaternions re-normalised (np: the pose tokens read back);
+\*  - an edge whose class has no writer (user-defined classes inherit to_g2o() = None) is not in the file: it is dropped, the others keep
+\*    their order, named ids, types and shapes (ne: their number tokens read back: measurements may be re-wrapped / re-normalised and only
+\*    the upper triangle of an information matrix is in the file);
+\*  - R^n odometry edges cannot be expressed: the export MUST refuse; a landmark edge may be refused (its offset parameter may be missing
+\*    from the graph's registry); a refusal changes nothing.
+Written(es) == SelectSeq(es, LAMBDA e : e.cls # "custom")
+MustRefuse == \E n \in DOMAIN edges : edges[n].cls = "odo" /\ edges[n].est \in {"R2", "R3"}
+MayRefuse == MustRefuse \/ \E n \in DOMAIN edges : edges[n].cls = "lm"
+ReloadEffect(raised, np, ne) ==
+  /\ status = "ready"
+  /\ IF raised THEN MayRefuse /\ UNCHANGED <<verts, edges, status>>
+     ELSE /\ ~MustRefuse
+          /\ verts' = [i \in DOMAIN verts |-> [verts[i] EXCEPT !.fixed = FALSE, !.pose = IF verts[i].kind \in {"R2", "R3"} THEN @ ELSE np[i]]]
+          /\ LET w == Written(edges) IN
+               edges' = [n \in DOMAIN w |-> [w[n] EXCEPT !.num = ne[n]]]
+          /\ status' = status
+Reload(raised, np, ne) == ReloadEffect(raised, np, ne) /\ obs' = [op |-> "Reload", raised |-> raised]
+
 Init == verts = <<>> /\ edges = <<>> /\ status = "unbuilt" /\ obs = [op |-> "none"]
 
 \* ---------- properties (checked on bounded instances by MC_GraphSLAM; imposed on recorded executions by Trace_GraphSLAM) ----------
 SameShape == Len(verts') = Len(verts) /\ \A i \in DOMAIN verts : verts'[i].id = verts[i].id /\ verts'[i].kind = verts[i].kind
-\* a vertex that is fixed after a step did not move in that step (every outcome of optimize, every query)
+\* a vertex that is fixed after a step did not move in that step (every outcome of optimize, every query; nothing is fixed after a reload)
 FixedFrozen == [][status = "ready" => SameShape /\ \A i \in DOMAIN verts : verts'[i].fixed => verts'[i].pose = verts[i].pose]_vars
 \* flags are only ever changed by SetFixed, or set (never cleared) on the first vertex by optimize
 FlagsRule == [][status = "ready" /\ obs'.op # "SetFixed" =>
-                 \A i \in DOMAIN verts : verts'[i].fixed = verts[i].fixed \/ (obs'.op = "OptCall" /\ i = 1 /\ verts'[i].fixed)]_vars
-\* edges, ids, kinds and orders never change after construction
-StructureFrozen == [][status = "ready" => edges' = edges /\ SameShape /\ status' = status]_vars
+                 \A i \in DOMAIN verts : verts'[i].fixed = verts[i].fixed \/ (obs'.op = "OptCall" /\ i = 1 /\ verts'[i].fixed)
+                                                                        \/ (obs'.op = "Reload" /\ ~verts'[i].fixed)]_vars
+\* edges, ids, kinds and orders never change after construction -- except that a file round trip drops the edges no writer exists for
+\* and may change number tokens
+Skeleton(es) == [n \in DOMAIN es |-> [es[n] EXCEPT !.num = 0]]
+StructureFrozen == [][status = "ready" => /\ SameShape /\ status' = status
+                                          /\ IF obs'.op = "Reload" THEN Skeleton(edges') \in {Skeleton(edges), Skeleton(Written(edges))}
+                                             ELSE edges' = edges]_vars
 QueriesPure == [][obs'.op \in Queries => UNCHANGED <<verts, edges, status>>]_vars
 \* every accepted edge is attached to the vertices whose ids it names, whatever the list order
 BoundById == status = "ready" => \A n \in DOMAIN edges : \A j \in DOMAIN edges[n].vids :
